@@ -563,6 +563,9 @@ func (nw *netw) byzFlood(b int, k hr) {
 	bs := nw.byzst
 	ts := nw.nowMicro()
 	to := []int{nw.reals[nw.rnd.Intn(len(nw.reals))]}
+	if nw.rnd.Intn(3) == 0 && nw.byzOldPolka(b, k) {
+		return
+	}
 	switch nw.rnd.Intn(5) {
 	case 0: // replay of an own earlier message
 		if len(bs.mine) > 0 {
@@ -605,6 +608,54 @@ func (nw *netw) byzFlood(b int, k hr) {
 			nw.injectVote(nw.mkVote(b, consensus.VoteTypePrecommit, k.h-1, 0, nil, ts), to)
 		}
 	}
+}
+
+// byzOldPolka: a real node is locked on (lr, B); for an EARLIER round r' < lr
+// the pool holds prevotes of correct validators for something else that lack
+// one vote for a polka: the Byzantine validator supplies it and the old votes
+// are replayed to the locked node.  (A polka of a round below lockedRound must
+// not unlock.)
+func (nw *netw) byzOldPolka(b int, k hr) bool {
+	for _, i := range nw.reals {
+		r := nw.nodes[i]
+		if r.down || r.dead || r.lastObs.Height != k.h || r.lastObs.LockedID == "" || r.lastObs.LockedRound < 1 {
+			continue
+		}
+		lockedBlk := nw.idOfKey(r.lastObs.LockedID)
+		for rr := int32(0); rr < r.lastObs.LockedRound; rr++ {
+			// value -> packets of distinct correct senders
+			byVal := map[int][]*packet{}
+			seen := map[[2]int]bool{}
+			for _, p := range nw.pool {
+				if p.Kind == "vote" && p.H == k.h && p.Round == rr && p.V.Type == 0 && p.Src >= 0 && p.V.Dec != lockedBlk && !seen[[2]int{p.Src, p.V.Dec}] {
+					seen[[2]int{p.Src, p.V.Dec}] = true
+					byVal[p.V.Dec] = append(byVal[p.V.Dec], p)
+				}
+			}
+			for dec, ps := range byVal {
+				if !nw.quorum(len(ps)+len(nw.cfg.Byz)) || dec < 0 {
+					continue
+				}
+				for _, p := range ps {
+					if p.Src == i {
+						continue
+					}
+					if ds := p.dst[i]; ds != nil && ds.delivered > 0 {
+						ds.delivered = 0
+						ds.held = false
+					} else if ds == nil {
+						p.dst[i] = &dstState{}
+					}
+				}
+				for _, bb := range nw.cfg.Byz {
+					nw.byzst.mine = append(nw.byzst.mine, nw.injectVote(nw.mkVote(bb, consensus.VoteTypePrevote, k.h, rr, nw.blk(dec), nw.nowMicro()), []int{i}))
+				}
+				nw.note("byz %d completes an old polka (round %d, value %d) at node %d locked on (%d,#%d)", b, rr, dec, i, r.lastObs.LockedRound, lockedBlk)
+				return true
+			}
+		}
+	}
+	return false
 }
 
 // byzHelp: in benign mode the Byzantine validators vote with the majority of
@@ -709,6 +760,11 @@ func (nw *netw) runLoop(deadline time.Time) {
 	for !nw.allDone() {
 		if time.Now().After(deadline) {
 			nw.aborted = "wall-clock budget used up"
+			for _, i := range nw.reals {
+				r := nw.nodes[i]
+				nw.note("at abort: node %d traceH=%d down=%v dead=%v initPend=%v harnessErr=%q state: h=%d round=%d step=%d lock=(%d,%s) cur=%s timer=%v redo=%v pendingReqs=%d",
+					i, r.traceH, r.down, r.dead, r.initPend != nil, r.harnessErr, r.lastObs.Height, r.lastObs.Round, r.lastObs.Step, r.lastObs.LockedRound, nw.nameOfKey(r.lastObs.LockedID), nw.nameOfKey(r.lastObs.CurID), r.lastObs.Timer != nil, r.redoN, len(r.pendingReqs()))
+			}
 			break
 		}
 		if nw.step() {
